@@ -126,6 +126,9 @@ def one(res, ctx, root, rng, t, forced_style, idx, sample=False):
     lics = [rng.choice(LICS)] + ([rng.choice(LICS)] if rng.random() < 0.25 else [])
     lics = list(dict.fromkeys(lics))
     contribs = [rng.choice(["Ann Contributor", "Bob <bob@example.com>", "Çağrı", "D'Arcy & Co <https://example.org/?a=1&b=2>", "Quote \"Q\" Person"])] if rng.random() < 0.3 else []
+    if rng.random() < 0.12 and not hostile:
+        # somebody who holds copyright and is named as contributor as well; a contributor whose name is part of a holder's name
+        contribs = [rng.choice([holders[0], holders[0].split(" <")[0].split()[0]])]
     prefix = rng.choice(list(notice.PREFIXES)) if rng.random() < 0.6 else None
     yr = rng.random()
     if yr < 0.25:
